@@ -1,2 +1,49 @@
-From SV Require Import Simfile.
-Theorem C03_placeholder : True. Proof. exact I. Qed.
+(* C03 - Loading builds exactly the documented object, through every entry point.  Statements only.
+   In the model every entry point is [load]; that the library's entry points agree with each
+   other is the correspondence check's claim, not a theorem (see DESIGN.md). *)
+From Coq Require Import List NArith ZArith Bool Lia.
+From SV Require Import Sx Str Omap Msd Simfile Proofs.MsdFacts Proofs.LoadFacts.
+Import ListNotations.
+Open Scope N_scope.
+
+(* with strict parsing off no text is ever rejected for stray text *)
+Theorem C03_nonstrict_total : forall t, snd (parse false t) <> StStray.
+Proof. exact nonstrict_total. Qed.
+Print Assumptions C03_nonstrict_total.
+
+(* whatever strict parsing accepts, non-strict parsing reads identically *)
+Theorem C03_strict_agrees : forall t ps, parse true t = (ps, StOk) -> parse false t = (ps, StOk).
+Proof. exact strict_agrees. Qed.
+Print Assumptions C03_strict_agrees.
+
+(* the format rule *)
+Theorem C03_detect_rule : forall strict name t,
+  load strict (Some name) t =
+  let '(ps, st) := parse strict t in
+  if str_eqb (suffix_go (lower name) []) sSSC then map_lres SSC (load_ssc_params ps st)
+  else if str_eqb (suffix_go (lower name) []) sSM then map_lres SM (load_sm_params ps st)
+  else load strict None t.
+Proof.
+  intros strict name t. unfold load, detect_by_name. destruct (parse strict t) as [ps st].
+  destruct (str_eqb (suffix_go (lower name) []) sSSC); [reflexivity|].
+  destruct (str_eqb (suffix_go (lower name) []) sSM); reflexivity.
+Qed.
+Print Assumptions C03_detect_rule.
+
+Theorem C03_detect_by_content : forall ps,
+  detect_by_content ps = match ps with (k :: _) :: _ => if str_eqb (upper k) kVERSION then FSSC else FSM | _ => FSM end.
+Proof. reflexivity. Qed.
+
+(* the value rule and the six-field rule *)
+Theorem C03_value_rule : forall key vs,
+  value_of key vs = match vs with [] => None | v :: _ => if is_multi key then Some (join [58] vs) else Some v end.
+Proof. reflexivity. Qed.
+Theorem C03_fewer_than_six_is_error : forall vs, (length vs < 6)%nat -> chart_from_msd vs = None.
+Proof. intros vs H. destruct vs as [|a [|b [|c [|d [|e [|f r]]]]]]; try reflexivity. simpl in H. lia. Qed.
+Print Assumptions C03_fewer_than_six_is_error.
+
+Example C03_example :
+  load true None [35;118;101;114;115;105;111;110;58;49;59;35;116;58;97;59;35;84;58;98;59;35;78;79;84;69;68;65;84;65;58;59;35;120;59;35;78;79;84;69;83;58;48;59;35;121;58;49;59]
+  = LOk (SSC {| ssc_props := [(kVERSION, Some [49]); ([84], Some [98])];
+                ssc_charts := [[([88], None); (kNOTES, Some [48]); ([89], Some [49])]] |}).
+Proof. vm_compute. reflexivity. Qed.
